@@ -221,6 +221,11 @@ def inline_new_helpers(d):
         if T is None or len(call['args']) != H['arg_count']:
             skip.add(H['id'])
             continue
+        # a result that the caller throws away stays a call (the error discipline rules look at calls whose result is dropped)
+        used = any(pl['local'] == D['local'] and role != 'dest' for b in C['blocks'] for pl, role in _places(b['stmts']) + ([] if b['term']['k'] == 'Drop' else _places(b['term'])))
+        if not used and D['local'] != 0 and re.match(r'^(std::result::Result|std::option::Option)<', H['locals'][0]['ty']):
+            skip.add(H['id'])
+            continue
         # closures of the helper become closures of the caller (ids renumbered after the caller's own)
         ncl = 0
         for g in d['fns']:
